@@ -5,9 +5,10 @@
    (between API calls), over the reference graph of Misc/GC.v with *derived* reference counts and the
    code's thresholds.  Not proved (exercised by harness/props/c04.py only): collections that fire
    inside library calls, CPython's actual reference counts, when the collector runs. *)
-From Coq Require Import List NArith Bool Arith.
+From Coq Require Import String List NArith Bool Arith.
 From Delb.Base Require Import PyStr.
-From Delb.Misc Require Import GC GCFacts.
+From Delb.Gen Require Import GenGC.
+From Delb.Misc Require Import GC GCFacts GCEdits GCEditsFacts.
 Import ListNotations.
 
 (* the content of every tree stays the same *)
@@ -46,6 +47,40 @@ Theorem C04_edit : forall w w' o n, gc_step w = Some w' -> In o (held w) ->
 Proof. exact edits_take_effect. Qed.
 Print Assumptions C04_edit.
 
+(* the same for every modelled edit through a held text object o (GCEdits.edit): text added after o,
+   text added before o, content assigned through o, o detached, an ELEMENT added after o (the rest of
+   o's chain becomes the new element's tail) - each takes effect in the tree exactly as it would have
+   without the collection placed before it *)
+Theorem C04_edit_any : forall w w' ed, gc_step w = Some w' -> In (edit_obj ed) (held w) ->
+  content (apply_world ed w') = content (apply_world ed w).
+Proof. exact edit_after_collection. Qed.
+Print Assumptions C04_edit_any.
+
+(* any placement of collections: for every history of modelled edits through held text objects with
+   collections interleaved anywhere, any number of times, the final content is the content of the
+   same history without collections (run_sched = Some ..: no exception escaped a collection) *)
+Theorem C04_schedule : forall h w wf,
+  (forall ed, In (Do ed) h -> In (edit_obj ed) (held w)) ->
+  run_sched h w = Some wf -> content wf = content (run_plain h w).
+Proof. exact schedule_content. Qed.
+Print Assumptions C04_schedule.
+
+(* the lock: while some function is inside `with _wrapper_cache:` a collection is the identity *)
+Theorem C04_locked : forall w, locks w <> 0 -> gc_step w = Some w.
+Proof. exact locked_is_identity. Qed.
+Print Assumptions C04_locked.
+
+(* generated from the source on this run (Gen/GenGC.v): the constants of the callback are the numbers of
+   internal references of the object graph (a changed constant breaks this lemma by computation), and
+   the functions the property names take the lock *)
+Lemma C04_constants : node_base = 4 /\ doc_base = 4 /\ app_base = 3 /\ head_base = 3.
+Proof. exact gc_constants. Qed.
+Lemma C04_lock_takers :
+  forallb (fun n => existsb (String.eqb n) lock_takers)
+    ["NodeBase.serialize"; "TagNode.serialize"; "TagNode.merge_text_nodes"; "TagNode._reduce_whitespace";
+     "Document.__serialize"]%string = true.
+Proof. vm_compute. reflexivity. Qed.
+
 (* REGRESSION example (finding C04-held-head-text, fixed by e92425d): parse <root><a/>tail</root>, hold
    only root[1] (the tail text of <a>), collect.  The rule before the fix (keep_old, which never looked
    at head text objects) evicts the wrapper of <a>; the current rule keeps it, the held object stays
@@ -83,3 +118,16 @@ Example C04_example :
   option_map content (gc_step w) = Some (content w) /\
   content w = [(0, [97%N; 43%N], []); (1, [], [98%N; 43%N; 45%N]); (2, [99%N], [100%N; 43%N])].
 Proof. vm_compute. repeat split. Qed.
+
+(* non-vacuity of C04_schedule: hold the appended text object 22 and the head text object 13 of one
+   chain; collections before, between and after five different edits through them *)
+Example C04_schedule_example :
+  let w := mk_world [ mk_entry 0 (Some [97%N]) None (Some (mk_wrapper 1 true (Some 100) 10 [mk_tobj 20 [43%N]] 11 []));
+                      mk_entry 1 None (Some [98%N]) (Some (mk_wrapper 2 true None 12 [] 13 [mk_tobj 21 [43%N]; mk_tobj 22 [45%N]])) ]
+                    0 [22; 13] in
+  let h := [Collect; Do (EAppendText 22 (mk_tobj 30 [88%N])); Collect; Do (ESetContent 13 [66%N]); Collect;
+            Do (EAddElementAfter 13 7 40 41 42); Collect; Do (EPrependText 22 (mk_tobj 31 [89%N]));
+            Do (EDetachText 13 43); Collect] in
+  option_map content (run_sched h w) = Some (content (run_plain h w)) /\
+  content (run_plain h w) = [(0, [97%N; 43%N], []); (1, [], []); (7, [], [43%N; 89%N; 45%N; 88%N])].
+Proof. vm_compute. split; reflexivity. Qed.
